@@ -90,6 +90,21 @@ Proof.
   rewrite (R_get _ _ _ HR (find_in _ _ _ Hf)), Hc in Hg. inversion Hg; subst. reflexivity.
 Qed.
 
+(* remove(child) on the child's own parent is detach *)
+Lemma remove_child_is_detach s rs p c k :
+  R s rs -> In p (ids_f (r_forest rs)) -> index_of c (kids_ids (r_forest rs) p) = Some k ->
+  m_remove s p c = (m_detach s c, RNodes [c]).
+Proof.
+  intros HR Hp Hk. pose proof (R_nodup _ _ HR) as Hnd.
+  destruct (find_some _ _ Hp) as [tp Hf].
+  destruct (find_cell _ None _ _ Hnd Hf) as [px Hcp].
+  unfold kids_ids in Hk. rewrite Hf in Hk. apply index_of_Some_In in Hk.
+  assert (Hin : In c (c_kids (mkC px (roots (rkids tp)) (rdata tp)))) by exact Hk.
+  destruct (cell_child_points_back _ _ _ _ Hnd Hcp Hin) as [cc [Hcc Hpar]].
+  unfold m_remove. rewrite (R_get _ _ _ HR (cell_f_in _ _ _ _ Hcc)), Hcc, Hpar.
+  cbn. now rewrite N.eqb_refl.
+Qed.
+
 (* ------------------------------------------------------------------ *)
 (* one step                                                            *)
 (* ------------------------------------------------------------------ *)
@@ -115,9 +130,15 @@ Proof.
     apply ret_some in H. destruct H as [f' [H [-> ->]]]. split; [|reflexivity].
     now apply insert_refines.
   - (* remove *)
-    destruct (mem x (kids_ids (r_forest rs) p)); [|discriminate].
-    apply ret_some in H. destruct H as [f' [H [-> ->]]]. split; [|reflexivity].
-    now apply detach_refines.
+    destruct (live (r_forest rs) p); [|discriminate]. unfold parent_of in H. unfold m_remove.
+    destruct (cell_f None (r_forest rs) x) as [cx|] eqn:Hcx; cbn in H; [|discriminate].
+    rewrite (R_get _ _ _ HR (cell_f_in _ _ _ _ Hcx)), Hcx.
+    destruct (c_parent cx) as [q0|]; cbn.
+    + destruct (N.eqb q0 p).
+      * apply ret_some in H. destruct H as [f' [H [-> ->]]]. split; [|reflexivity].
+        now apply detach_refines.
+      * inversion H; subst. split; [assumption|reflexivity].
+    + inversion H; subst. split; [assumption|reflexivity].
   - (* detach *)
     apply ret_some in H. destruct H as [f' [H [-> ->]]]. split; [|reflexivity].
     now apply detach_refines.
@@ -133,7 +154,8 @@ Proof.
     assert (Hp : In p (ids_f (r_forest rs))).
     { unfold kids_ids in Hk. destruct (find_f (r_forest rs) p) eqn:E; [|discriminate].
       eapply find_in; eassumption. }
-    unfold m_replace. rewrite (kids_refines _ _ _ HR Hp), Hk. cbn [fst snd]. split; [|reflexivity].
+    unfold m_replace. rewrite (kids_refines _ _ _ HR Hp), Hk.
+    rewrite (remove_child_is_detach _ _ _ _ _ HR Hp Hk). cbn [fst snd]. split; [|reflexivity].
     destruct (ref_detach (r_forest rs) c) as [f1|] eqn:E1;
       [|rewrite fold_replace_none in H; discriminate].
     pose proof (detach_refines _ _ _ _ HR E1) as HR1.
@@ -142,8 +164,8 @@ Proof.
     destruct (find_f (r_forest rs) p) as [tp|] eqn:Hf; [|discriminate].
     inversion H; subst. now apply detach_children_refines.
   - (* prune *)
-    destruct (live (r_forest rs) x) eqn:Hl; [|discriminate]. inversion H; subst.
-    split; [|reflexivity]. apply prune_refines; [assumption|now apply mem_In].
+    destruct (find_f (r_forest rs) x) as [tx|] eqn:Hf; [|discriminate]. inversion H; subst.
+    split; [|reflexivity]. now apply prune_refines.
   - (* append(Attribute) *)
     apply ret_some in H. destruct H as [f' [H [-> ->]]]. split; [|reflexivity].
     unfold ref_data in H. destruct (find_f (r_forest rs) x) eqn:Hf; [|discriminate].
@@ -154,20 +176,20 @@ Proof.
     inversion H; subst. eapply data_refines; eauto.
     intros c _. now rewrite (chain_refines _ _ _ HR (find_in _ _ _ Hf)).
   - (* unset *)
-    destruct (get_attr_chain qn None (rchain (r_forest rs) x)) as [k|] eqn:Hk.
-    + destruct (find_f (r_forest rs) x) as [tx|] eqn:Hf; [|discriminate].
-      destruct (unshadowed k (d_attrs (rdata tx))) eqn:Hu; [|discriminate].
+    destruct (find_f (r_forest rs) x) as [tx|] eqn:Hf; [|discriminate].
+    pose proof (find_in _ _ _ Hf) as Hx.
+    destruct (set_target qn (rchain (r_forest rs) x) (rdata tx)) as [k|] eqn:Hk.
+    + destruct (negb (is_prefixed qn) || unshadowed k (d_attrs (rdata tx))) eqn:Hu; [|discriminate].
       apply ret_some in H. destruct H as [f' [H [-> ->]]]. split; [|reflexivity].
       unfold ref_data in H. rewrite Hf in H. inversion H; subst.
       eapply data_refines; eauto.
       intros c Hc. unfold d_unset.
-      rewrite (chain_refines _ _ _ HR (find_in _ _ _ Hf)), Hk.
-      rewrite (R_data _ _ _ _ _ HR Hf Hc). now rewrite attrs_remove_unshadowed.
-    + destruct (live (r_forest rs) x) eqn:Hl; [|discriminate]. inversion H; subst.
-      split; [|reflexivity]. apply mem_In in Hl.
+      rewrite (chain_refines _ _ _ HR Hx), (R_data _ _ _ _ _ HR Hf Hc), Hk.
+      destruct (is_prefixed qn); cbn in Hu; [now rewrite attrs_remove_unshadowed|reflexivity].
+    + inversion H; subst. split; [|reflexivity].
       apply (R_transfer s); [|apply next_upd_data|assumption].
-      apply upd_data_same. intros c _. unfold d_unset.
-      now rewrite (chain_refines _ _ _ HR Hl), Hk.
+      apply upd_data_same. intros c Hc. unfold d_unset.
+      now rewrite (chain_refines _ _ _ HR Hx), (R_data _ _ _ _ _ HR Hf Hc), Hk.
   - (* remove(Attribute) *)
     destruct (find_f (r_forest rs) x) as [tx|] eqn:Hf; [|discriminate].
     destruct (unshadowed k (d_attrs (rdata tx))) eqn:Hu; [|discriminate].
@@ -201,6 +223,13 @@ Proof.
     inversion H; subst.
     destruct (clone_refines _ _ _ _ _ _ HR Hf Hc) as [s' [Hm HR']].
     rewrite Hm. cbn. split; [assumption|reflexivity].
+  - (* p[idx] = x *)
+    destruct (live (r_forest rs) p) eqn:Hl; [|discriminate]. apply mem_In in Hl.
+    rewrite (kids_refines _ _ _ HR Hl).
+    destruct (idx <? Z.of_nat (length (kids_ids (r_forest rs) p)))%Z.
+    + apply ret_some in H. destruct H as [f' [H [-> ->]]]. cbn. split; [|reflexivity].
+      now apply insert_refines.
+    + inversion H; subst. cbn. split; [assumption|reflexivity].
 Qed.
 
 (* ------------------------------------------------------------------ *)
@@ -377,3 +406,54 @@ Proof.
   rewrite get_set. destruct (N.eqb p i) eqn:E2; [|reflexivity].
   apply N.eqb_eq in E2. subst. congruence.
 Qed.
+
+(* ------------------------------------------------------------------ *)
+(* witnesses for the three known findings kept in the model            *)
+(* ------------------------------------------------------------------ *)
+Definition sx : str := [120]%N.
+Definition sb : str := [98]%N.
+
+(* A. <r><x/><a/><b/></r> (r=0 x=1 a=2 b=3), r.replaceChild(a, x): the position of a
+   is computed BEFORE the content node x, an earlier sibling, is detached, so x
+   lands one place late: [b; x].  Replacing a by x is [x; b] -- what the same
+   edit gives when x is detached first; the reference makes no claim. *)
+Definition xab : list op :=
+  [ONew sr None; ONew sx None; ONew sa None; ONew sb None; OAppend 0%N [1; 2; 3]%N].
+Lemma replaceChild_earlier_sibling_refuted_l :
+  kids_of (run AEq empty_store (xab ++ [OReplace 0%N 2%N [1]%N])) 0%N = [3; 1]%N /\
+  ref_run empty_rstate (xab ++ [OReplace 0%N 2%N [1]%N]) = None /\
+  kids_of (run AEq empty_store (xab ++ [ODetach 1%N; OReplace 0%N 2%N [1]%N])) 0%N = [1; 3]%N /\
+  option_map (fun rs => kids_ids (r_forest rs) 0%N)
+             (ref_run empty_rstate (xab ++ [ODetach 1%N; OReplace 0%N 2%N [1]%N])) = Some [1; 3]%N.
+Proof. vm_compute. repeat split. Qed.
+
+(* F. <r><p/><q><c/></q></r> (r=0 p=1 q=2 c=3), p.append(c): c is NOT detached from q:
+   it is listed under p and under q and points to p; the reference makes no
+   claim; a move (detach first) leaves q without it *)
+Definition pqc : list op :=
+  [ONew sr None; ONew [112]%N None; ONew [113]%N None; ONew [99]%N None;
+   OAppend 2%N [3]%N; OAppend 0%N [1; 2]%N].
+Lemma append_does_not_detach_refuted_l :
+  let s := run AEq empty_store (pqc ++ [OAppend 1%N [3]%N]) in
+  kids_of s 1%N = [3]%N /\ kids_of s 2%N = [3]%N /\
+  option_map c_parent (get s 3%N) = Some (Some 1%N) /\
+  ref_run empty_rstate (pqc ++ [OAppend 1%N [3]%N]) = None /\
+  kids_of (run AEq empty_store (pqc ++ [ODetach 3%N; OAppend 1%N [3]%N])) 2%N = [].
+Proof. vm_compute. repeat split. Qed.
+
+(* H. <r xmlns:q="u"><a q:x="1"/></r> (r=0 a=1), a.clone() = 2: the attribute q:x of the
+   original is in namespace u; in the clone, a tree of its own, the prefix q is
+   bound nowhere *)
+Definition rqa : list op :=
+  [ONew sr None; OAddPrefix 0%N [113]%N [117]%N; ONew sa None; OAppend 0%N [1]%N;
+   OSet 1%N [113; 58; 120]%N [49]%N].
+Definition first_attr_ns (s : store) (x : id) : option (option str) :=
+  match chain_of s x with
+  | d :: _ => match d_attrs d with a :: _ => Some (attr_ns_chain a (chain_of s x)) | [] => None end
+  | [] => None
+  end.
+Lemma clone_loses_inherited_attribute_prefix_refuted_l :
+  let s := run AEq empty_store (rqa ++ [OClone 1%N]) in
+  first_attr_ns s 1%N = Some (Some [117]%N) /\ first_attr_ns s 2%N = Some None /\
+  option_map c_parent (get s 2%N) = Some None.
+Proof. vm_compute. repeat split. Qed.
